@@ -206,6 +206,7 @@ class C14(Property):
         "Flatland.C14.Proofs.eval_denotes",
         "Flatland.C14.Proofs.eval_denotes_raw",
         "Flatland.C14.Proofs.C14_full_fails",
+        "Flatland.C14.Proofs.tokenize_print_names",
     ]
     generated_obligations = []
     trusted_base = [
